@@ -108,11 +108,14 @@ class Ctx:
             raise ToolError("TLC timed out after %ss on %s/%s" % (timeout, module, cfg))
         return rc, out, dt
 
-    def tlc_mc(self, module, cfg, timeout=600, workers=None, must_cover=True, ignore_uncovered=()):
+    def tlc_mc(self, module, cfg, timeout=600, workers=None, must_cover=True, ignore_uncovered=(), coverage=True):
         """Exhaustive model check; every invariant/property of the cfg must hold and every action
         must have been taken."""
         workers = workers or (6 if self.quick else 14)
-        rc, out, dt = self._tlc(module, cfg, ["-coverage", "1"], workers, timeout, tag="mc")
+        # (-coverage makes TLC up to 10x slower on specs with heavy action properties: such specs
+        #  pass coverage=False for the big run and check action coverage on a small configuration)
+        rc, out, dt = self._tlc(module, cfg, ["-coverage", "1"] if coverage else [], workers, timeout, tag="mc")
+        must_cover = must_cover and coverage
         m = re.search(r"(\d+) states generated, (\d+) distinct states found, (\d+) states left", out)
         if "Model checking completed. No error has been found." not in out or not m:
             tail = "\n".join(l for l in out.splitlines() if not l.startswith(("  |", "  line")))[-5000:]
@@ -178,8 +181,17 @@ class Ctx:
         if "Model checking completed. No error has been found." not in out:
             raise ToolError("trace validation of %s: TLC reported an error\n%s" % (trace_path, out[-4000:]))
         diameter, n = int(m.group(1)), int(m.group(2))
-        e = re.search(r'"TRACE_END",\s*"(\[[\d,\s]*\])"', out)
-        bad = json.loads(e.group(1)) if e else []
+        e = re.search(r'"TRACE_END",\s*"(.*?)"\s*>>', out, re.S)
+        raw = json.loads(e.group(1).replace('\\"', '"').replace("\\\\", "\\")) if e else []
+        # entries are line numbers, or [line, tags] for specs that attribute mismatches
+        self.last_tags = {}
+        bad = []
+        for x in raw:
+            if isinstance(x, list):
+                bad.append(int(x[0]))
+                self.last_tags[int(x[0])] = sorted(x[1])
+            else:
+                bad.append(int(x))
         if diameter != n + 1:
             # the trace could not be consumed to its end: first unmatched line = diameter
             bad = sorted(set(bad + [diameter]))
